@@ -152,7 +152,7 @@ def check_generate(tr, w, model, h, cons, cp, script, gf, cfg):
                           f"weight={float(w)} assess={float(lp)}", op="generate", cfg=cfg))
     if script is not None and not viol:
         un_sites = [s for s in r.sites if tuple(s["path"]) not in cp]
-        un_ref, un_lanes = gfi.match_sites(un_sites, script.lanes)
+        un_ref, un_lanes = gfi.match_sites(un_sites, script.lanes, script=script)
         if un_ref:
             viol.append(V("routing", "unconstrained_drawn_from_conditional_prior",
                           "an unconstrained choice was not drawn at a site consulted with the reference's "
